@@ -17,6 +17,14 @@
   / `same_directory_same_module` (`./x`, `x/`, `x/.`, `a//b`, `a/./b`, `n/../x` resolve alike).  Symbolic links are
   outside the model; the stream checks them on the real file system (oracles `c18-once`, `c18-resolve`).
 
+  Added for chains of components: `chain_accepts_end_class_properties` / `chain_instance_accepted` (a chain
+  c₀ : c₁ : … : Qt class of any length, each link resolved in the imports of the component that names it, behaves like
+  the Qt class it ends in: properties, widget / layout / action), `cyclic_chain_never_widget` /
+  `cyclic_chain_instance_rejected` (a chain that returns to a component it has passed is no widget, layout or action and
+  has no properties: every instance is diagnosed), `customwidget_extends_direct_super` and
+  `customwidgets_only_instantiated` (`extends` is the root type written in the component's own file; ancestors that are
+  not instantiated are not listed).  The model's Qt summary carries `isLayout` / `isAction` next to `isWidget`.
+
   The command-line loop of `generate_ui` is modelled as `cliRun`; `cli_outputs_order_independent` proves the
   clause for it.  (Finding F15 — the loop stopped at the first rejected source — was repaired in /repo
   73d3cab; the pre-repair loop and its witness are kept as `cliRunFailFast` / `f15_fail_fast_witness`.)
@@ -238,17 +246,17 @@ theorem customwidgets_exact (env : Env) (t : Tree) (look : Path → Option Modul
       simp only [Output.accepted, Bool.and_eq_true, List.isEmpty_iff] at hacc; exact hacc.2
     obtain ⟨hrootDiag, hkidDiag⟩ := hdiag hd
     have hn := hnode ob _ hob hty
-    -- the node's base list derives from QWidget
-    have hw : ∃ b, clsBases env t look (.comp d c) = some b ∧ derivesWidget b = true := by
+    -- the node's base list passes the class test (root: a widget; child: a widget, a layout or an action)
+    have hw : ∃ b r, clsBases env t look (.comp d c) = some b ∧ passesClass r b = true := by
       unfold nodesOf at hn
       rcases List.mem_append.1 hn with hn | hn
       · obtain ⟨i, hi, _, _, hb'⟩ := infos_mem _ _ hk _ hn
-        exact ⟨i.bases, hb', classDiag_nil (hkidDiag i hi)⟩
+        exact ⟨i.bases, false, hb', classDiag_nil (hkidDiag i hi)⟩
       · obtain ⟨i, hi, _, _, hb'⟩ := infos_mem _ _ hr _ hn
         simp only [List.mem_singleton] at hi; subst hi
-        exact ⟨i.bases, hb', classDiag_nil hrootDiag⟩
-    obtain ⟨b, hb', hwb⟩ := hw
-    obtain ⟨s, hs⟩ := derivesWidget_super_ok hb' hwb
+        exact ⟨i.bases, true, hb', classDiag_nil hrootDiag⟩
+    obtain ⟨b, r, hb', hwb⟩ := hw
+    obtain ⟨s, hs⟩ := passesClass_super_ok hb' hwb
     exact ⟨_, (hmem _).2 ⟨ob, d, c, s, hob, hty, hs, rfl⟩, rfl⟩
 
 /-- The header name is the class name plus `.h`, ASCII-lower-cased (`FileNameRules::default()`). -/
@@ -327,6 +335,121 @@ theorem instances_accept_base_properties (env : Env) (t : Tree) (look : Path →
                   obtain ⟨k, q, hk⟩ := ih _ _ _ hr hw
                   exact ⟨k + 1, q, .step hq hk⟩
         exact this _ _ _ _ hb hw'
+
+/-! ### chains of components: component → component → … → Qt class -/
+
+/-- **A chain of components behaves like the Qt class it ends in.**  `ReachesQt env look k c q`: the root type of `c`
+    resolves — in `c`'s own imports — to a component, whose root type resolves in ITS imports to a component, … and
+    after `k` components to the Qt class `q` (so the chain passes `k + 1` pairwise distinct components; the links may
+    lie in one directory or each in another one, visible only from the component that names it).  Then the base-class
+    walk of `c` reaches `q` whatever its length: a property is found on an instance of `c` iff `q` has it (own and
+    inherited alike — `q.props` is what `get_property` resolves on `q`), every other property is `unknown` (never a
+    resolution failure), and `c` is a widget / a layout / an action iff `q` is one. -/
+theorem chain_accepts_end_class_properties (env : Env) (t : Tree) (look : Path → Option Module)
+    (hs : SoundLook t look) {k : Nat} {c : CompData} {q : QtClass} (h : ReachesQt env look k c q) :
+    ∃ l, basesOf env t look c = some l ∧
+      (∀ p, propIn p l = .found ↔ p ∈ q.props) ∧ (∀ p, p ∉ q.props → propIn p l = .unknown) ∧
+      derivesWidget l = q.isWidget ∧ derivesLayout l = q.isLayout ∧ derivesAction l = q.isAction := by
+  obtain ⟨l, hl, _, hw⟩ := reaches_basesOf (p := "") hs h
+  have hp : ∀ p, propIn p l = (if p ∈ q.props then .found else .unknown) := by
+    intro p
+    obtain ⟨l', hl', hp', _⟩ := reaches_basesOf (p := p) hs h
+    rw [hl] at hl'; cases hl'; exact hp'
+  obtain ⟨l1, hl1, hlay⟩ := reaches_basesOf_sel (sel := (·.isLayout)) hs h
+  obtain ⟨l2, hl2, hact⟩ := reaches_basesOf_sel (sel := (·.isAction)) hs h
+  rw [hl] at hl1 hl2; cases hl1; cases hl2
+  refine ⟨l, hl, ?_, ?_, hw, hlay, hact⟩
+  · intro p; rw [hp p]; split <;> simp_all
+  · intro p hn; rw [hp p, if_neg hn]
+
+/-- **What the form makes of an instance of a chain component.**  With the base list of the theorem above: the
+    binding of an instance is written to the `.ui` iff the end class has the property, otherwise it is diagnosed
+    `unknown property of class '<component>'` and nothing else; as the ROOT object the instance passes iff the end
+    class is a widget (else `is not a QWidget`), as a CHILD iff it is a widget, a layout or an action (else
+    `is not a QAction, QLayout, nor QWidget`). -/
+theorem chain_instance_accepted (env : Env) (t : Tree) (look : Path → Option Module) (hs : SoundLook t look)
+    {k : Nat} {c : CompData} {q : QtClass} (h : ReachesQt env look k c q) (n : NodeInfo) (d : Path)
+    (hc : n.cls = .comp d c) (hb : basesOf env t look c = some n.bases) :
+    (∀ p, n.obj.prop = some p → p ∈ q.props → bindingOf n = ([p], [])) ∧
+    (∀ p, n.obj.prop = some p → p ∉ q.props → bindingOf n = ([], [.unknownProperty c.name p])) ∧
+    (classDiag true n = [] ↔ q.isWidget = true) ∧
+    (classDiag false n = [] ↔ (q.isAction = true ∨ q.isLayout = true ∨ q.isWidget = true)) ∧
+    (classDiag true n = [] ∨ classDiag true n = [.notQWidget c.name]) ∧
+    (classDiag false n = [] ∨ classDiag false n = [.notActionLayoutWidget c.name]) := by
+  obtain ⟨l, hl, hfound, hunk, hw, hlay, hact⟩ := chain_accepts_end_class_properties env t look hs h
+  rw [hb] at hl; cases hl
+  have hname : n.cls.name = c.name := by rw [hc]; rfl
+  refine ⟨?_, ?_, ?_, ?_, ?_, ?_⟩
+  · intro p hp hmem
+    simp only [bindingOf, hp, (hfound p).2 hmem]
+  · intro p hp hmem
+    simp only [bindingOf, hp, hunk p hmem, hname]
+  · rw [classDiag_nil_iff]; simp [passesClass, hw]
+  · rw [classDiag_nil_iff]; simp [passesClass, hw, hlay, hact, or_assoc]
+  · unfold classDiag; simp only [if_true, hname]; split <;> simp
+  · unfold classDiag; simp only [Bool.false_eq_true, if_false, hname]; split <;> simp
+
+/-- **A chain that runs into a cycle never becomes a widget.**  `chainAt env look k c` is the component reached from
+    `c` after `k + 1` steps along root types.  If the chain comes back to a component it has passed (`A : B, B : A`;
+    `A : A`; `C : A, A : B, B : A` — within one directory or across directories), then the walk over the base classes
+    of `c` still terminates, and its result contains no Qt class: `c` is no widget, no layout and no action — so every
+    document that instantiates `c` is rejected by the class test — and every property looked up on it is `unknown`. -/
+theorem cyclic_chain_never_widget (env : Env) (t : Tree) (look : Path → Option Module) (hs : SoundLook t look)
+    (c : CompData) (i j : Nat) (x : Path × CompData) (hij : i < j)
+    (hi : chainAt env look i c = some x) (hj : chainAt env look j c = some x) :
+    ∃ l, basesOf env t look c = some l ∧ derivesWidget l = false ∧ derivesLayout l = false ∧
+      derivesAction l = false ∧ passesClass true l = false ∧ passesClass false l = false ∧
+      ∀ p, propIn p l = .unknown := by
+  obtain ⟨l, hl⟩ := inheritance_walk_terminates env t look hs c
+  have hall : AllComp l := baseClasses_forever _ _ _ _ (chainAt_forever hij hi hj) hl
+  have h1 := (allComp_lookups hall (·.isLayout) "").1
+  have h2 := (allComp_lookups hall (·.isAction) "").1
+  have h3 := (allComp_lookups hall (·.isAction) "").2.1
+  refine ⟨l, hl, h3, h1, h2, ?_, ?_, fun p => (allComp_lookups hall (·.isAction) p).2.2⟩
+  · simp [passesClass, h3]
+  · simp [passesClass, h3, derivesLayout, derivesAction, h1, h2]
+
+/-- … hence an instance of such a component is always diagnosed, as root and as child. -/
+theorem cyclic_chain_instance_rejected (env : Env) (t : Tree) (look : Path → Option Module) (hs : SoundLook t look)
+    (c : CompData) (i j : Nat) (x : Path × CompData) (hij : i < j)
+    (hi : chainAt env look i c = some x) (hj : chainAt env look j c = some x)
+    (n : NodeInfo) (hb : basesOf env t look c = some n.bases) :
+    classDiag true n = [.notQWidget n.cls.name] ∧ classDiag false n = [.notActionLayoutWidget n.cls.name] ∧
+    ∀ p, n.obj.prop = some p → bindingOf n = ([], [.unknownProperty n.cls.name p]) := by
+  obtain ⟨l, hl, hw, hlay, hact, _, _, hp⟩ := cyclic_chain_never_widget env t look hs c i j x hij hi hj
+  rw [hb] at hl; cases hl
+  refine ⟨?_, ?_, ?_⟩
+  · simp [classDiag, hw]
+  · simp [classDiag, hw, hlay, hact]
+  · intro p hpr; simp only [bindingOf, hpr, hp p]
+
+/-- **`extends` is the DIRECT super class**: the entry of a component carries the component's name, as `extends` the
+    type name written as the root object of the component's own file (for `Fancy : Base`, `Base : QPushButton` the entry
+    of `Fancy` says `Base`, not `QPushButton`) and the header by the file-name rule. -/
+theorem customwidget_extends_direct_super (env : Env) (look : Path → Option Module) (c : CompData) (w : CustomWidget)
+    (h : customOf env look c = some w) :
+    w = { cls := c.name, ext := c.super, header := headerName c.name } := by
+  unfold customOf at h
+  split at h
+  · rename_i s hs
+    cases h
+    rw [superClass_name hs]
+  · cases h
+
+/-- **Only what the document instantiates is listed**: every entry under `<customwidgets>` is the class of some object
+    of the document (root or child), with `extends` = the root type written in that component's file — a component that
+    is only an ANCESTOR of an instantiated one (`Base` above) gets no entry of its own. -/
+theorem customwidgets_only_instantiated (env : Env) (t : Tree) (look : Path → Option Module) (base : Path) (f : File)
+    (o : Output) (h : translate env t look base f = some o) (hb : o.built = true) (w : CustomWidget) (hw : w ∈ o.customs) :
+    ∃ ob d c, (ob ∈ f.children ∨ ob = f.root) ∧ ob.typeName = w.cls ∧
+      getType env look (docSpace env t look base f.imports).1 ob.typeName = .ok (.comp d c) ∧
+      w = { cls := c.name, ext := c.super, header := headerName c.name } := by
+  obtain ⟨_, hmem, _⟩ := customwidgets_exact env t look base f o h hb
+  obtain ⟨ob, d, c, s, hob, hty, hs, hweq⟩ := (hmem w).1 hw
+  obtain ⟨_, _, _, _, hname⟩ := getType_comp hty
+  refine ⟨ob, d, c, hob, ?_, hty, ?_⟩
+  · rw [hweq]; exact hname.symm
+  · rw [hweq, superClass_name hs]
 
 /-! ### the command line
 
@@ -506,6 +629,78 @@ example : okOut = some
       customs := [{ cls := "Form", ext := "QDialog", header := "form.h" }] } := by decide +kernel
 example : mainOut.map (·.widgets.take 2) = some
     [{ cls := "QWidget", props := [] }, { cls := "Form", props := ["sizeGripEnabled"] }] := by decide +kernel
+
+/-! chains: `Fancy : Base : QPushButton` in one directory (the layout of seeded change C18/3), `Top : Mid : Low :
+   QPushButton` with every link in another directory (`d` imports `e`, `e` imports `f`; a document of `d` sees `Top`
+   only), chains that end in a layout class and in QAction, and `C : A`, `A : B`, `B : A` (a chain into a cycle) -/
+
+private def chainEnv : Env :=
+  { qt := [{ name := "QWidget", isWidget := true, props := ["windowTitle"] },
+           { name := "QDialog", isWidget := true, props := ["windowTitle"] },
+           { name := "QPushButton", isWidget := true, props := ["windowTitle", "text", "flat"] },
+           { name := "QVBoxLayout", isWidget := false, props := ["spacing"], isLayout := true },
+           { name := "QAction", isWidget := false, props := ["text"], isAction := true }] }
+
+private def chainTree : Tree :=
+  [ { path := [], files := [] },
+    { path := ["d"], files :=
+        [ { stem := "Base", imports := [qtw], root := { typeName := "QPushButton" } },
+          { stem := "Fancy", imports := [qtw], root := { typeName := "Base", prop := some "flat" } },
+          { stem := "Main", imports := [qtw], root := { typeName := "QDialog" },
+            children := [{ typeName := "Fancy", prop := some "text" }, { typeName := "Fancy", prop := some "title" }] },
+          { stem := "Top", imports := [qtw, .dir ["..", "e"]], root := { typeName := "Mid" } },
+          { stem := "UseTop", imports := [qtw], root := { typeName := "Top", prop := some "windowTitle" },
+            children := [{ typeName := "Top", prop := some "flat" }, { typeName := "Mid" }] },
+          { stem := "Lay", imports := [qtw], root := { typeName := "QVBoxLayout" } },
+          { stem := "Lay2", imports := [qtw], root := { typeName := "Lay" } },
+          { stem := "Act", imports := [qtw], root := { typeName := "QAction" } },
+          { stem := "Act2", imports := [qtw], root := { typeName := "Act" } },
+          { stem := "UseLA", imports := [qtw], root := { typeName := "QWidget" },
+            children := [{ typeName := "Lay2", prop := some "spacing" }, { typeName := "Act2", prop := some "text" },
+                         { typeName := "Act2", prop := some "windowTitle" }] },
+          { stem := "C", imports := [qtw], root := { typeName := "A" } },
+          { stem := "A", imports := [qtw], root := { typeName := "B" } },
+          { stem := "B", imports := [qtw], root := { typeName := "A" } },
+          { stem := "UseC", imports := [qtw], root := { typeName := "QWidget" },
+            children := [{ typeName := "C", prop := some "text" }] } ] },
+    { path := ["e"], files := [ { stem := "Mid", imports := [qtw, .dir ["..", "f"]], root := { typeName := "Low" } } ] },
+    { path := ["f"], files := [ { stem := "Low", imports := [qtw], root := { typeName := "QPushButton" } } ] } ]
+
+private def chainOut (stem : String) : Option Output :=
+  match findDir chainTree ["d"] with
+  | some d => (d.files.find? (·.stem = stem)).bind (translate chainEnv chainTree (lookOf (populate chainTree [["d"]])) ["d"])
+  | none => none
+
+example : dirsOf (populate chainTree [["d"]]) = some [["d"], ["e"], ["f"]] := by decide +kernel
+-- `text` is inherited through `Fancy : Base : QPushButton`, `title` is not a property of QPushButton; `Fancy` is listed
+-- once and extends its DIRECT super `Base`, which is not instantiated and not listed
+example : chainOut "Main" = some
+    { built := true, diags := [.unknownProperty "Fancy" "title"],
+      widgets := [{ cls := "QDialog", props := [] }, { cls := "Fancy", props := ["text"] }, { cls := "Fancy", props := [] }],
+      customs := [{ cls := "Fancy", ext := "Base", header := "fancy.h" }] } := by decide +kernel
+-- a component file is a document whose root is the next component of the chain
+example : chainOut "Fancy" = some
+    { built := true, diags := [], widgets := [{ cls := "Base", props := ["flat"] }],
+      customs := [{ cls := "Base", ext := "QPushButton", header := "base.h" }] } := by decide +kernel
+-- three links, each in another directory: `Top` is usable (root and child, inherited bindings), `Mid` is not visible
+example : chainOut "UseTop" = some
+    { built := true, diags := [.unknownObjectType "Mid"],
+      widgets := [{ cls := "Top", props := ["windowTitle"] }, { cls := "Top", props := ["flat"] }],
+      customs := [{ cls := "Top", ext := "Mid", header := "top.h" }] } := by decide +kernel
+-- layout- and action-ended chains are accepted as children (an action is written as a plain `<action>`) and listed;
+-- `windowTitle` is no property of QAction
+example : chainOut "UseLA" = some
+    { built := true, diags := [.unknownProperty "Act2" "windowTitle"],
+      widgets := [{ cls := "QWidget", props := [] }, { cls := "Lay2", props := ["spacing"] }, { cls := "QAction", props := ["text"] },
+                  { cls := "QAction", props := [] }],
+      customs := [{ cls := "Lay2", ext := "Lay", header := "lay2.h" }, { cls := "Act2", ext := "Act", header := "act2.h" }] } := by
+  decide +kernel
+-- … and refused as the root object of a document
+example : (chainOut "Lay2").map (·.diags) = some [.notQWidget "Lay"] := by decide +kernel
+example : (chainOut "Act2").map (·.diags) = some [.notQWidget "Act"] := by decide +kernel
+-- a chain into a cycle: the walk ends, the instance is no widget and has no properties
+example : (chainOut "UseC").map (·.diags) = some [.unknownProperty "C" "text", .notActionLayoutWidget "C"] := by decide +kernel
+example : (chainOut "C").map (·.diags) = some [.notQWidget "A"] := by decide +kernel
 
 -- the command line: a rejected source between accepted ones; an I/O error ends the run
 example : cliRun [("A", .accepted), ("Bad", .rejected), ("B", .accepted)] = (["A", "B"], .diagnosticGenerated) := by decide
